@@ -7,6 +7,19 @@ rnd = sys.argv[2] if len(sys.argv) > 2 else '1'
 props = {json.loads(l)['id']: json.loads(l) for l in open('/verif/properties.jsonl')}
 EXTRA = {
  '1': '',
+ '7': ('\nThis is a SEVENTH round with a THEME: changes whose two halves each look fine alone.  Earlier volunteers already '
+       'tried single dropped guards, dropped keyword arguments, swapped attributes, wrong helpers, caching, fast paths, loop '
+       'bounds, or-defaults, one-shot iterators, table edits, lint-style rewrites, new features and performance work.  Look for '
+       '(a) a change of a CONTRACT between two functions or modules -- the producer now returns / stores something slightly '
+       'different (a tuple instead of a list, a stripped string, a shifted offset, a token without its position, an iterator) '
+       'and only one of its several consumers is adapted; (b) an invariant established in one method and relied on in another '
+       '(parent links, the position attribute, the begin/end strings of environments, the argument kinds) that one writer stops '
+       'maintaining; (c) state that survives between two calls on the same object or between two parses.  Produce TWO changes '
+       '(A and B, in {out}/A and {out}/B), each with a one-line commit message at the top of notes.txt.  IMPORTANT: never use '
+       '`git stash` (it is shared between all worktrees of this repository); to test against the pristine tree use `git -C '
+       '<worktree> diff > saved.diff; git -C <worktree> checkout -- .` and re-apply with `git apply`.  Keep your individual '
+       'messages short; write long content to files.  You have a HARD budget of about 15 minutes in total: deliver what you '
+       'have by then, one change is better than none.\n'),
  '6': ('\nThis is a SIXTH round with a THEME: new features, bug fixes and performance work that go subtly wrong.  Each '
        'change must look like a commit a maintainer would merge: (a) a NEW FEATURE -- a new optional parameter, a new public '
        'method or property, support for one more LaTeX construct (a new environment name, a new argument form, a new math '
